@@ -3,7 +3,8 @@ import NanoVerif.Gen.LsPredicates
   C07 — model of libnano's line searches (core Lean only; linked into `driver_c07`).
 
   Mirrors
-    src/lsearchk.cpp             `lsearchk_t::get` (descent guard, the two step-adjusting loops), `lsearchk_t::update`
+    src/lsearchk.cpp             `lsearchk_t::get` (descent guard, the two step-adjusting loops, the validity guard between them),
+                                 `lsearchk_t::update`
     src/lsearchk/backtrack.cpp   `lsearchk_backtrack_t::do_get`
     src/lsearchk/lemarechal.cpp  `lsearchk_lemarechal_t::do_get`
     src/lsearchk/fletcher.cpp    `lsearchk_fletcher_t::do_get`, `zoom`
@@ -94,7 +95,7 @@ def cmax (a b : α) : α := if a < b then b else a
 /-- `std::clamp(v, lo, hi)` -/
 def clamp (v lo hi : α) : α := if v < lo then lo else if hi < v then hi else v
 
-/-- `lsearchk_t::update` (lsearchk.cpp:76-88): evaluate at `x0 + t d`, overwrite `state` (also when invalid) -/
+/-- `lsearchk_t::update` (lsearchk.cpp:81-93): evaluate at `x0 + t d`, overwrite `state` (also when invalid) -/
 def ask (φ : Oracle α) (ctx : Ctx α) (t : α) : Ctx α := ⟨φ ctx.trace.length t, t :: ctx.trace⟩
 
 /-- `lsearch_step_t{state, descent, t}` -/
@@ -114,7 +115,7 @@ def secant (u v : Step α) : α := (v.t * u.g - u.t * v.g) / (u.g - v.g)
 /-- `lsearch_step_t::bisection` -/
 def bisection (u v : Step α) : α := 1 / 2 * (u.t + v.t)
 
-/-! ### preamble of `lsearchk_t::get` (lsearchk.cpp:49-68) -/
+/-! ### preamble of `lsearchk_t::get` (lsearchk.cpp:49-73) -/
 
 /-- lsearchk.cpp:53-57 `for (i < max_iterations && !update(state, state0, descent, step_size)) step_size *= 0.3;` -/
 def shrink (φ : Oracle α) : Nat → α → Ctx α → α × Ctx α
@@ -123,7 +124,7 @@ def shrink (φ : Oracle α) : Nat → α → Ctx α → α × Ctx α
     let ctx' := ask φ ctx t
     if ctx'.cur.ok then (t, ctx') else shrink φ n (t * (3 / 10)) ctx'
 
-/-- lsearchk.cpp:60-68 `for (i < max_iterations && |fx - f0| < epsilon1) { step_size *= 3; if (!update(..)) return {false, step_size}; }`;
+/-- lsearchk.cpp:65-73 `for (i < max_iterations && |fx - f0| < epsilon1) { step_size *= 3; if (!update(..)) return {false, step_size}; }`;
     `.inl` = the early `return {false, step_size}` -/
 def grow (φ : Oracle α) (eps1 f0 : α) : Nat → α → Ctx α → Sum (α × Ctx α) (α × Ctx α)
   | 0, t, ctx => .inr (t, ctx)
@@ -272,50 +273,58 @@ structure MT (α : Type) where
   width : α
   width1 : α
 
-/-- morethuente.cpp:187-280, one entry per loop iteration; `f, g` are `state.fx()`, `state.dg(descent)` -/
+/-- the five `return {true, stp}` of the loop body (morethuente.cpp:195-217): "no further progress" (×2), `stp` at
+    `stpmax()` / `stpmin()`, convergence; `f, g` are `state.fx()`, `state.dg(descent)` -/
+def mtExit (cfg : Cfg α) (s0 : Eval α) (m : MT α) (f g : α) : Bool :=
+  let gtest := cfg.c1 * s0.g
+  let stp := m.dc.stp
+  let ftest := s0.f + stp * gtest
+  decide (m.dc.brackt = true ∧ (stp ≤ m.stmin ∨ stp ≥ m.stmax)) ||
+  decide (m.dc.brackt = true ∧ (m.stmax - m.stmin) ≤ cfg.eps0 * m.stmax) ||
+  decide (stp ≥ stpmax cfg.macheps ∧ f ≤ ftest ∧ g ≤ gtest) ||
+  decide (stp ≤ stpmin cfg.macheps ∧ (f > ftest ∨ g ≥ gtest)) ||
+  decide (f ≤ ftest ∧ absv g ≤ cfg.c2 * (-s0.g))
+
+/-- the rest of the loop body up to the next trial step (morethuente.cpp:189-193, 219-269): stage switch, `dcstep` on the
+    (possibly modified) function, bisection safeguard, new bounds, clamping, the `stp = stx` fallback.
+    The next trial step is `(mtNext …).dc.stp`. -/
+def mtNext (cfg : Cfg α) (s0 : Eval α) (m : MT α) (f g : α) : MT α :=
+  let gtest := cfg.c1 * s0.g
+  let stp := m.dc.stp
+  let ftest := s0.f + stp * gtest
+  let stage1 := if m.stage1 = true ∧ f ≤ ftest ∧ g ≥ 0 then false else m.stage1
+  let dc : DC α :=
+    if stage1 = true ∧ f ≤ m.dc.fx ∧ f > ftest then
+      let d := m.dc
+      let r := dcstep cfg
+        { d with fx := d.fx - d.stx * gtest, fy := d.fy - d.sty * gtest, dx := d.dx - gtest, dy := d.dy - gtest }
+        (f - stp * gtest) (g - gtest) m.stmin m.stmax
+      { r with fx := r.fx + r.stx * gtest, fy := r.fy + r.sty * gtest, dx := r.dx + gtest, dy := r.dy + gtest }
+    else dcstep cfg m.dc f g m.stmin m.stmax
+  -- bisection step / new bounds (morethuente.cpp:242-260)
+  let stp1 :=
+    if dc.brackt then
+      if absv (dc.sty - dc.stx) ≥ m.width1 * (66 / 100) then dc.stx + (dc.sty - dc.stx) * (1 / 2) else dc.stp
+    else dc.stp
+  let width1 := if dc.brackt then m.width else m.width1
+  let width := if dc.brackt then absv (dc.sty - dc.stx) else m.width
+  let stmin := if dc.brackt then cmin dc.stx dc.sty else stp1 + (stp1 - dc.stx) * (11 / 10)
+  let stmax := if dc.brackt then cmax dc.stx dc.sty else stp1 + (stp1 - dc.stx) * 4
+  let stp2 := clamp stp1 (stpmin cfg.macheps) (stpmax cfg.macheps)
+  let stp3 :=
+    if (dc.brackt = true ∧ (stp2 ≤ stmin ∨ stp2 ≥ stmax)) ∨ (dc.brackt = true ∧ stmax - stmin ≤ cfg.eps0 * stmax)
+    then dc.stx else stp2
+  ⟨stage1, { dc with stp := stp3 }, stmin, stmax, width, width1⟩
+
+/-- morethuente.cpp:187-280, one entry per loop iteration -/
 def morethuente (cfg : Cfg α) (φ : Oracle α) (s0 : Eval α) : Nat → MT α → Ctx α → Res α
   | 0, m, ctx => ⟨false, m.dc.stp, ctx⟩
   | n + 1, m, ctx =>
-    let finit := s0.f
-    let ginit := s0.g
-    let gtest := cfg.c1 * ginit
-    let stp := m.dc.stp
-    let f := ctx.cur.f
-    let g := ctx.cur.g
-    let brackt := m.dc.brackt
-    let ftest := finit + stp * gtest
-    let stage1 := if m.stage1 = true ∧ f ≤ ftest ∧ g ≥ 0 then false else m.stage1
-    if brackt = true ∧ (stp ≤ m.stmin ∨ stp ≥ m.stmax) then ⟨true, stp, ctx⟩
-    else if brackt = true ∧ (m.stmax - m.stmin) ≤ cfg.eps0 * m.stmax then ⟨true, stp, ctx⟩
-    else if stp ≥ stpmax cfg.macheps ∧ f ≤ ftest ∧ g ≤ gtest then ⟨true, stp, ctx⟩
-    else if stp ≤ stpmin cfg.macheps ∧ (f > ftest ∨ g ≥ gtest) then ⟨true, stp, ctx⟩
-    else if f ≤ ftest ∧ absv g ≤ cfg.c2 * (-ginit) then ⟨true, stp, ctx⟩
+    if mtExit cfg s0 m ctx.cur.f ctx.cur.g then ⟨true, m.dc.stp, ctx⟩
     else
-      let dc : DC α :=
-        if stage1 = true ∧ f ≤ m.dc.fx ∧ f > ftest then
-          let d := m.dc
-          let r := dcstep cfg
-            { d with fx := d.fx - d.stx * gtest, fy := d.fy - d.sty * gtest, dx := d.dx - gtest, dy := d.dy - gtest }
-            (f - stp * gtest) (g - gtest) m.stmin m.stmax
-          { r with fx := r.fx + r.stx * gtest, fy := r.fy + r.sty * gtest, dx := r.dx + gtest, dy := r.dy + gtest }
-        else dcstep cfg m.dc f g m.stmin m.stmax
-      -- bisection step / new bounds (morethuente.cpp:242-260)
-      let stp1 :=
-        if dc.brackt then
-          if absv (dc.sty - dc.stx) ≥ m.width1 * (66 / 100) then dc.stx + (dc.sty - dc.stx) * (1 / 2) else dc.stp
-        else dc.stp
-      let width1 := if dc.brackt then m.width else m.width1
-      let width := if dc.brackt then absv (dc.sty - dc.stx) else m.width
-      let stmin := if dc.brackt then cmin dc.stx dc.sty else stp1 + (stp1 - dc.stx) * (11 / 10)
-      let stmax := if dc.brackt then cmax dc.stx dc.sty else stp1 + (stp1 - dc.stx) * 4
-      let stp2 := clamp stp1 (stpmin cfg.macheps) (stpmax cfg.macheps)
-      let stp3 :=
-        if (dc.brackt = true ∧ (stp2 ≤ stmin ∨ stp2 ≥ stmax)) ∨ (dc.brackt = true ∧ stmax - stmin ≤ cfg.eps0 * stmax)
-        then dc.stx else stp2
-      let ctx' := ask φ ctx stp3
-      if ctx'.cur.ok then
-        morethuente cfg φ s0 n ⟨stage1, { dc with stp := stp3 }, stmin, stmax, width, width1⟩ ctx'
-      else ⟨false, stp3, ctx'⟩
+      let m' := mtNext cfg s0 m ctx.cur.f ctx.cur.g
+      let ctx' := ask φ ctx m'.dc.stp
+      if ctx'.cur.ok then morethuente cfg φ s0 n m' ctx' else ⟨false, m'.dc.stp, ctx'⟩
 
 /-- morethuente.cpp:160-185 -/
 def morethuenteInit (cfg : Cfg α) (s0 : Eval α) (t : α) : MT α :=
@@ -338,53 +347,68 @@ def cgDone (cfg : Cfg α) (s0 : Eval α) (epsk : α) (bracketed : Bool) (iv : CG
     (hasArmijo s0.f s0.g ctx.cur.f iv.t cfg.c1 && hasWolfe s0.g ctx.cur.g cfg.c2) ||
     (hasApproxArmijo s0.f ctx.cur.f epsk && hasApproxWolfe s0.g ctx.cur.g cfg.c1 cfg.c2)
 
-/-- `lsearchk_cgdescent_t::move` -/
-def cgMove (φ : Oracle α) (iv : CG α) (ctx : Ctx α) (t : α) : CG α × Ctx α := ({ iv with t := t }, ask φ ctx t)
+/-- what the helper functions of CG_DESCENT hand back: the remaining shared budget `params.m_max_iterations` (it is
+    `mutable` in the C++ code), the interval and the state -/
+structure CGS (α : Type) where
+  m : Nat
+  iv : CG α
+  ctx : Ctx α
 
-/-- `updateU` (cgdescent.cpp:104-127); the first component is the remaining shared budget `params.m_max_iterations` -/
-def cgUpdateU (cfg : Cfg α) (φ : Oracle α) (s0 : Eval α) (epsk : α) : Nat → CG α → Ctx α → Nat × CG α × Ctx α
-  | 0, iv, ctx => (0, iv, ctx)
+/-- `lsearchk_cgdescent_t::move` (cgdescent.cpp:98-102) -/
+def cgMove (φ : Oracle α) (m : Nat) (iv : CG α) (ctx : Ctx α) (t : α) : CGS α := ⟨m, { iv with t := t }, ask φ ctx t⟩
+
+/-- `updateU` (cgdescent.cpp:104-127); the `return`s inside the loop skip the decrement of the budget -/
+def cgUpdateU (cfg : Cfg α) (φ : Oracle α) (s0 : Eval α) (epsk : α) : Nat → CG α → Ctx α → CGS α
+  | 0, iv, ctx => ⟨0, iv, ctx⟩
   | m + 1, iv, ctx =>
     if iv.b.t - iv.a.t > stpmin cfg.macheps then
-      let (iv, ctx) := cgMove φ iv ctx ((1 - cfg.cgTheta) * iv.a.t + cfg.cgTheta * iv.b.t)
-      if ctx.cur.ok = false then (m + 1, iv, ctx)
-      else if hasDescent ctx.cur.g = false then (m + 1, { iv with b := stepOf ctx iv.t }, ctx)
-      else if hasApproxArmijo s0.f ctx.cur.f epsk then cgUpdateU cfg φ s0 epsk m { iv with a := stepOf ctx iv.t } ctx
-      else cgUpdateU cfg φ s0 epsk m { iv with b := stepOf ctx iv.t } ctx
-    else (m + 1, iv, ctx)
+      let s := cgMove φ (m + 1) iv ctx ((1 - cfg.cgTheta) * iv.a.t + cfg.cgTheta * iv.b.t)
+      if s.ctx.cur.ok = false then s
+      else if hasDescent s.ctx.cur.g = false then { s with iv := { s.iv with b := stepOf s.ctx s.iv.t } }
+      else if hasApproxArmijo s0.f s.ctx.cur.f epsk then
+        cgUpdateU cfg φ s0 epsk m { s.iv with a := stepOf s.ctx s.iv.t } s.ctx
+      else cgUpdateU cfg φ s0 epsk m { s.iv with b := stepOf s.ctx s.iv.t } s.ctx
+    else ⟨m + 1, iv, ctx⟩
 
 /-- `update` (cgdescent.cpp:129-148) -/
-def cgUpdate (cfg : Cfg α) (φ : Oracle α) (s0 : Eval α) (epsk : α) (m : Nat) (iv : CG α) (ctx : Ctx α) :
-    Nat × CG α × Ctx α :=
-  if iv.t ≤ iv.a.t ∨ iv.t ≥ iv.b.t then (m, iv, ctx)
-  else if hasDescent ctx.cur.g = false then (m, { iv with b := stepOf ctx iv.t }, ctx)
-  else if hasApproxArmijo s0.f ctx.cur.f epsk then (m, { iv with a := stepOf ctx iv.t }, ctx)
+def cgUpdate (cfg : Cfg α) (φ : Oracle α) (s0 : Eval α) (epsk : α) (m : Nat) (iv : CG α) (ctx : Ctx α) : CGS α :=
+  if iv.t ≤ iv.a.t ∨ iv.t ≥ iv.b.t then ⟨m, iv, ctx⟩
+  else if hasDescent ctx.cur.g = false then ⟨m, { iv with b := stepOf ctx iv.t }, ctx⟩
+  else if hasApproxArmijo s0.f ctx.cur.f epsk then ⟨m, { iv with a := stepOf ctx iv.t }, ctx⟩
   else cgUpdateU cfg φ s0 epsk m { iv with b := stepOf ctx iv.t } ctx
 
 /-- `bracket` (cgdescent.cpp:150-174); `lastA` = `last_a` -/
-def cgBracket (cfg : Cfg α) (φ : Oracle α) (s0 : Eval α) (epsk : α) : Nat → Step α → CG α → Ctx α → Nat × CG α × Ctx α
-  | 0, _, iv, ctx => (0, iv, ctx)
+def cgBracket (cfg : Cfg α) (φ : Oracle α) (s0 : Eval α) (epsk : α) : Nat → Step α → CG α → Ctx α → CGS α
+  | 0, _, iv, ctx => ⟨0, iv, ctx⟩
   | m + 1, lastA, iv, ctx =>
     if ctx.cur.ok then
-      if hasDescent ctx.cur.g = false then (m + 1, { iv with a := lastA, b := stepOf ctx iv.t }, ctx)
+      if hasDescent ctx.cur.g = false then ⟨m + 1, { iv with a := lastA, b := stepOf ctx iv.t }, ctx⟩
       else if hasApproxArmijo s0.f ctx.cur.f epsk = false then
         cgUpdateU cfg φ s0 epsk (m + 1) { iv with a := ⟨0, s0.f, s0.g⟩, b := stepOf ctx iv.t } ctx
       else
-        let lastA' := stepOf ctx iv.t
-        let (iv', ctx') := cgMove φ iv ctx (cfg.cgRo * iv.t)
-        cgBracket cfg φ s0 epsk m lastA' iv' ctx'
-    else (m + 1, iv, ctx)
+        let s := cgMove φ m iv ctx (cfg.cgRo * iv.t)
+        cgBracket cfg φ s0 epsk m (stepOf ctx iv.t) s.iv s.ctx
+    else ⟨m + 1, iv, ctx⟩
 
-/-- `move_update_and_check_done` (cgdescent.cpp:198-214): `(done, budget, interval, state)` -/
+/-- `move_update_and_check_done` (cgdescent.cpp:198-214): the verdict and the state afterwards -/
 def cgTry (cfg : Cfg α) (φ : Oracle α) (s0 : Eval α) (epsk : α) (m : Nat) (iv : CG α) (ctx : Ctx α) (t : α) :
-    Bool × Nat × CG α × Ctx α :=
-  if cfg.fin t = false then (false, m, iv, ctx)
+    Bool × CGS α :=
+  if cfg.fin t = false then (false, ⟨m, iv, ctx⟩)
   else
-    let (iv, ctx) := cgMove φ iv ctx t
-    if cgDone cfg s0 epsk true iv ctx then (true, m, iv, ctx)
+    let s := cgMove φ m iv ctx t
+    if cgDone cfg s0 epsk true s.iv s.ctx then (true, s)
     else
-      let (m, iv, ctx) := cgUpdate cfg φ s0 epsk m iv ctx
-      (cgDone cfg s0 epsk true iv ctx, m, iv, ctx)
+      let s' := cgUpdate cfg φ s0 epsk s.m s.iv s.ctx
+      (cgDone cfg s0 epsk true s'.iv s'.ctx, s')
+
+/-- the optional second secant step (cgdescent.cpp:231-244) -/
+def cgSecond (cfg : Cfg α) (φ : Oracle α) (s0 : Eval α) (epsk : α) (a0 b0 : Step α) (tc : α) (s : CGS α) : Bool × CGS α :=
+  if absv (tc - s.iv.a.t) < cfg.eps0 then cgTry cfg φ s0 epsk s.m s.iv s.ctx (secant a0 s.iv.a)
+  else if absv (tc - s.iv.b.t) < cfg.eps0 then cgTry cfg φ s0 epsk s.m s.iv s.ctx (secant b0 s.iv.b)
+  else (false, s)
+
+/-- `return {state.valid(), interval.step_size}` -/
+def cgResult (s : CGS α) : Res α := ⟨s.ctx.cur.ok, s.iv.t, s.ctx⟩
 
 /-- main loop (cgdescent.cpp:217-254): `i` counts up, `m` is the shared (mutable) budget the guard `i < m` re-reads -/
 def cgLoop (cfg : Cfg α) (φ : Oracle α) (s0 : Eval α) (epsk : α) : Nat → Nat → Nat → CG α → Ctx α → Res α
@@ -395,24 +419,16 @@ def cgLoop (cfg : Cfg α) (φ : Oracle α) (s0 : Eval α) (epsk : α) : Nat → 
       let b0 := iv.b
       let prevWidth := iv.b.t - iv.a.t
       let tc := secant a0 b0
-      let (d1, m1, iv1, ctx1) := cgTry cfg φ s0 epsk m iv ctx tc
-      if d1 then ⟨ctx1.cur.ok, iv1.t, ctx1⟩
+      let r1 := cgTry cfg φ s0 epsk m iv ctx tc
+      if r1.1 then cgResult r1.2
       else
-        -- the second secant step (cgdescent.cpp:231-244)
-        let second : Option α :=
-          if absv (tc - iv1.a.t) < cfg.eps0 then some (secant a0 iv1.a)
-          else if absv (tc - iv1.b.t) < cfg.eps0 then some (secant b0 iv1.b)
-          else none
-        let (d2, m2, iv2, ctx2) :=
-          match second with
-          | some t2 => cgTry cfg φ s0 epsk m1 iv1 ctx1 t2
-          | none => (false, m1, iv1, ctx1)
-        if d2 then ⟨ctx2.cur.ok, iv2.t, ctx2⟩
-        else if iv2.b.t - iv2.a.t > cfg.cgGamma * prevWidth then
-          let (d3, m3, iv3, ctx3) := cgTry cfg φ s0 epsk m2 iv2 ctx2 ((iv2.a.t + iv2.b.t) / 2)
-          if d3 then ⟨ctx3.cur.ok, iv3.t, ctx3⟩
-          else cgLoop cfg φ s0 epsk fuel (i + 1) m3 iv3 ctx3
-        else cgLoop cfg φ s0 epsk fuel (i + 1) m2 iv2 ctx2
+        let r2 := cgSecond cfg φ s0 epsk a0 b0 tc r1.2
+        if r2.1 then cgResult r2.2
+        else if r2.2.iv.b.t - r2.2.iv.a.t > cfg.cgGamma * prevWidth then
+          let r3 := cgTry cfg φ s0 epsk r2.2.m r2.2.iv r2.2.ctx ((r2.2.iv.a.t + r2.2.iv.b.t) / 2)
+          if r3.1 then cgResult r3.2
+          else cgLoop cfg φ s0 epsk fuel (i + 1) r3.2.m r3.2.iv r3.2.ctx
+        else cgLoop cfg φ s0 epsk fuel (i + 1) r2.2.m r2.2.iv r2.2.ctx
     else ⟨false, iv.t, ctx⟩
 
 /-- `lsearchk_cgdescent_t::do_get` (cgdescent.cpp:176-257) -/
@@ -421,9 +437,9 @@ def cgdescent (cfg : Cfg α) (φ : Oracle α) (s0 : Eval α) (t : α) (ctx : Ctx
   let iv : CG α := ⟨⟨0, s0.f, s0.g⟩, stepOf ctx t, t⟩
   if cgDone cfg s0 epsk false iv ctx then ⟨ctx.cur.ok, iv.t, ctx⟩
   else
-    let (m, iv, ctx) := cgBracket cfg φ s0 epsk cfg.maxIter iv.a iv ctx
-    if cgDone cfg s0 epsk true iv ctx then ⟨ctx.cur.ok, iv.t, ctx⟩
-    else cgLoop cfg φ s0 epsk m 0 m iv ctx
+    let s := cgBracket cfg φ s0 epsk cfg.maxIter iv.a iv ctx
+    if cgDone cfg s0 epsk true s.iv s.ctx then cgResult s
+    else cgLoop cfg φ s0 epsk s.m 0 s.m s.iv s.ctx
 
 /-! ### `lsearchk_t::get` -/
 
@@ -439,13 +455,16 @@ def doGet (m : Method) (cfg : Cfg α) (φ : Oracle α) (s0 : Eval α) (t : α) (
 /-- lsearchk.cpp:52 `step_size = isfinite(step_size) ? clamp(step_size, stpmin(), 1.0) : 1` -/
 def initialStep (cfg : Cfg α) (t0 : α) : α := if cfg.fin t0 then clamp t0 (stpmin cfg.macheps) 1 else 1
 
-/-- `lsearchk_t::get(state, descent, step_size)` (lsearchk.cpp:36-74); `s0` = the state on entry (`state0`), `t0` = `step_size` -/
+/-- `lsearchk_t::get(state, descent, step_size)` (lsearchk.cpp:36-79); `s0` = the state on entry (`state0`), `t0` = `step_size`.
+    lsearchk.cpp:58-62: when the first loop ends without a valid state the search fails at once. -/
 def get (m : Method) (cfg : Cfg α) (φ : Oracle α) (s0 : Eval α) (t0 : α) : Res α :=
   if hasDescent s0.g then
     let p := shrink φ cfg.maxIter (initialStep cfg t0) ⟨s0, []⟩
-    match grow φ cfg.eps1 s0.f cfg.maxIter p.1 p.2 with
-    | .inl q => ⟨false, q.1, q.2⟩
-    | .inr q => doGet m cfg φ s0 q.1 q.2
+    if p.2.cur.ok then
+      match grow φ cfg.eps1 s0.f cfg.maxIter p.1 p.2 with
+      | .inl q => ⟨false, q.1, q.2⟩
+      | .inr q => doGet m cfg φ s0 q.1 q.2
+    else ⟨false, p.1, p.2⟩
   else ⟨false, t0, ⟨s0, []⟩⟩
 
 end
